@@ -28,6 +28,30 @@ import (
 type dumper struct {
 	p      *packages.Package
 	errOrd int // ordinal of the next error constructor in the current function
+	// parameters and local variables are printed under canonical names (v0, v1, … in order of first appearance, one per
+	// declared object of go/types): a renamed variable leaves the tree unchanged, shadowing cannot occur in the tree
+	names map[types.Object]string
+}
+
+// local: the canonical name of a parameter / local variable, or the identifier's own name for everything else
+func (d *dumper) local(id *ast.Ident) string {
+	if id.Name == "_" {
+		return "_"
+	}
+	obj := d.p.TypesInfo.Defs[id]
+	if obj == nil {
+		obj = d.p.TypesInfo.Uses[id]
+	}
+	v, ok := obj.(*types.Var)
+	if !ok || v.IsField() || v.Parent() == nil || v.Parent() == d.p.Types.Scope() || v.Parent() == types.Universe {
+		return id.Name
+	}
+	if n, ok := d.names[obj]; ok {
+		return n
+	}
+	n := fmt.Sprintf("v%d", len(d.names))
+	d.names[obj] = n
+	return n
 }
 
 func q(s string) string {
@@ -107,7 +131,7 @@ func (d *dumper) expr(e ast.Expr) string {
 				return ".nil"
 			}
 		}
-		return fmt.Sprintf("(.ident %q)", x.Name)
+		return fmt.Sprintf("(.ident %q)", d.local(x))
 	case *ast.BasicLit:
 		return fmt.Sprintf("(.opaque %s)", q(src(x)))
 	case *ast.SelectorExpr:
@@ -222,12 +246,12 @@ func (d *dumper) zero(t types.Type) string {
 	return fmt.Sprintf("(.opaque %s)", q("zero value of "+t.String()))
 }
 
-func identName(e ast.Expr) (string, bool) {
+func (d *dumper) identName(e ast.Expr) (string, bool) {
 	if e == nil {
 		return "_", true
 	}
 	if id, ok := e.(*ast.Ident); ok {
-		return id.Name, true
+		return d.local(id), true
 	}
 	return "", false
 }
@@ -288,7 +312,7 @@ func (d *dumper) stmt(s ast.Stmt) string {
 			var names []string
 			ok := true
 			for _, l := range x.Lhs {
-				n, isID := identName(l)
+				n, isID := d.identName(l)
 				if !isID {
 					ok = false
 					break
@@ -304,18 +328,18 @@ func (d *dumper) stmt(s ast.Stmt) string {
 			vs := gd.Specs[0].(*ast.ValueSpec)
 			if len(vs.Names) == 1 {
 				if len(vs.Values) == 1 {
-					return fmt.Sprintf("(.assign true [%q] [%s])", vs.Names[0].Name, d.expr(vs.Values[0]))
+					return fmt.Sprintf("(.assign true [%q] [%s])", d.local(vs.Names[0]), d.expr(vs.Values[0]))
 				}
 				if len(vs.Values) == 0 {
 					if t := d.p.TypesInfo.TypeOf(vs.Type); t != nil {
-						return fmt.Sprintf("(.assign true [%q] [%s])", vs.Names[0].Name, d.zero(t))
+						return fmt.Sprintf("(.assign true [%q] [%s])", d.local(vs.Names[0]), d.zero(t))
 					}
 				}
 			}
 		}
 	case *ast.RangeStmt:
-		k, ok1 := identName(x.Key)
-		v, ok2 := identName(x.Value)
+		k, ok1 := d.identName(x.Key)
+		v, ok2 := d.identName(x.Value)
 		if ok1 && ok2 && (x.Tok == token.DEFINE || (x.Key == nil && x.Value == nil)) {
 			if t := d.p.TypesInfo.TypeOf(x.X); t != nil {
 				if _, isSlice := t.Underlying().(*types.Slice); isSlice {
@@ -396,6 +420,7 @@ func (d *dumper) stmt(s ast.Stmt) string {
 
 func (d *dumper) fn(prefix string, fd *ast.FuncDecl) (string, string) {
 	d.errOrd = 0
+	d.names = map[types.Object]string{}
 	name := fd.Name.Name
 	var params []string
 	if fd.Recv != nil && len(fd.Recv.List) == 1 {
@@ -410,7 +435,7 @@ func (d *dumper) fn(prefix string, fd *ast.FuncDecl) (string, string) {
 			name = id.Name + "." + name
 		}
 		if len(fd.Recv.List[0].Names) == 1 {
-			params = append(params, fmt.Sprintf("%q", fd.Recv.List[0].Names[0].Name))
+			params = append(params, fmt.Sprintf("%q", d.local(fd.Recv.List[0].Names[0])))
 		} else {
 			params = append(params, "\"_\"")
 		}
@@ -420,7 +445,7 @@ func (d *dumper) fn(prefix string, fd *ast.FuncDecl) (string, string) {
 			params = append(params, "\"_\"")
 		}
 		for _, n := range f.Names {
-			params = append(params, fmt.Sprintf("%q", n.Name))
+			params = append(params, fmt.Sprintf("%q", d.local(n)))
 		}
 	}
 	leanName := prefix + "_" + strings.ReplaceAll(name, ".", "_")
